@@ -35,7 +35,7 @@ def enum(chk, vh, groups, full, upto):
         if "mismatch" in o:
             m = o["mismatch"]
             chk.violation("WinconBytes on %s (chunks %s): observed %s; specification allows styles %s / text %s"
-                          % (bytes(m["input"]), m["chunks"], json.dumps(m["observed"])[:300], json.dumps(m["allowed"])[:300], m["text"]),
+                          % (bytes(m["input"]), m["chunks"], json.dumps(m["observed"])[:300], json.dumps(m["chars"])[:300], ""),
                           {"kind": "wincon-case", "case": m})
         else:
             s = o["summary"]
@@ -82,7 +82,7 @@ def traces(chk, vh, shards, streams, target):
 
 def chunk_part(chk, vh, quick):
     """C03, extractor half: every chunking of the enumerated SGR inputs, seeded chunkings of long texts"""
-    enum(chk, vh, 2, False, 14)
+    enum(chk, vh, 2, False, 12)
     traces(chk, vh, 4 if quick else 24, 10, 300 if quick else 1200)
 
 
@@ -100,8 +100,8 @@ def run(chk):
     if not r.ok:
         raise vlib.ToolError("MC_SgrRoundTrip failed (%s)" % r.violated)
     chk.add_tlc(r, "S_combined_equals_separate")
-    enum(chk, vh, 2, True, 12)
-    enum(chk, vh, 3, False, 12 if quick else 16)
+    enum(chk, vh, 2, True, 10 if quick else 14)
+    enum(chk, vh, 3, False, 10 if quick else 16)
     if not quick:
         enum(chk, vh, 3, True, 8)
     traces(chk, vh, 8 if quick else 48, 12 if quick else 24, 300 if quick else 1500)
@@ -114,7 +114,7 @@ def replay(obj):
     if obj["kind"] == "wincon-case":
         m = obj["case"]
         p = os.path.join(wd, "c.ndjson")
-        vlib.write_lines(p, [{"i": m["input"], "allowed": m["allowed"], "text": m["text"]}])
+        vlib.write_lines(p, [{"i": m["input"], "chars": m["chars"]}])
         out = vlib.run_harness(vh, ["wincon-replay", p, 16]).stdout
         print(out)
         return 1 if '"mismatch"' in out else 0
@@ -144,5 +144,5 @@ def selftest():
     if ok or rej["reject_at"] != idx + 1:
         return False
     c = os.path.join(wd, "c.ndjson")
-    vlib.write_lines(c, [{"i": [27, 91, 49, 109, 88], "allowed": [{"fg": ["none"], "bg": ["none"], "ul": ["none"], "eff": ["ITALIC"]}], "text": [88]}])
+    vlib.write_lines(c, [{"i": [27, 91, 49, 109, 88], "chars": [{"c": 88, "allowed": [{"fg": ["none"], "bg": ["none"], "ul": ["none"], "eff": ["ITALIC"]}]}]}])
     return '"mismatch"' in vlib.run_harness(vh, ["wincon-replay", c, 8]).stdout
